@@ -244,3 +244,25 @@ Definition convert_camx_time (dates hours : list Z) : list (Z * Z) :=
 Definition spec_date (d : Z) : Z := if d <? 70000 then 2000000 + d else 1900000 + d.
 Definition spec_camx_time (dates hours : list Z) : list (Z * Z) :=
   combine (map spec_date dates) (map (fun h => h * 10000) hours).
+
+(* ---- the writer (uamiv/Write.py ncf2uamiv) when the input has no ETFLAG variable ------------------
+   date_e = date_s ; time_e = time_s + TSTEP/10000 ; date_e += time_e // 24 ; time_e -= (time_e // 24) * 24
+   i.e. the end date is the two-digit-year julian date PLUS ONE at midnight, with no year roll-over. *)
+Definition hour_word (h : Z) : Z :=   (* binary32 bit pattern of the whole hour h, 0 <= h <= 24 *)
+  nth (Z.to_nat h) [0; 1065353216; 1073741824; 1077936128; 1082130432; 1084227584; 1086324736; 1088421888; 1090519040; 1091567616; 1092616192; 1093664768; 1094713344; 1095761920; 1096810496; 1097859072; 1098907648; 1099431936; 1099956224; 1100480512; 1101004800; 1101529088; 1102053376; 1102577664; 1103101952] 0.
+Definition derive_end (bd bh : Z) : Z * Z := (bd + (bh + 1) / 24, (bh + 1) mod 24).
+Definition derive_th (th : list word) (bh : Z) : list word :=
+  let bd := nth 0 th 0 in let e := derive_end bd bh in [bd; nth 1 th 0; fst e; hour_word (snd e)].
+Definition derive_u (u : uamiv) (bhours : list Z) : uamiv :=
+  let sts := map (fun p => (derive_th (fst (fst p)) (snd p), snd (fst p))) (combine (u_steps u) bhours) in
+  let lastth := last (map fst sts) [0; 0; 0; 0] in
+  {| u_name := u_name u; u_note := u_note u; u_itzon := u_itzon u;
+     u_dates := [nth 0 (u_dates u) 0; nth 1 (u_dates u) 0; nth 2 lastth 0; nth 3 lastth 0];
+     u_gpre := u_gpre u; u_nx := u_nx u; u_ny := u_ny u; u_nz := u_nz u; u_gpost := u_gpost u;
+     u_spc := u_spc u; u_steps := sts |}.
+(* the true calendar successor of a YYJJJ date (1970..2069: leap iff yy mod 4 = 0) *)
+Definition next_yyjjj (d : Z) : Z :=
+  let yy := d / 1000 in let jjj := d mod 1000 in
+  let ndays := if yy mod 4 =? 0 then 366 else 365 in
+  if jjj <? ndays then d + 1 else ((yy + 1) mod 100) * 1000 + 1.
+Definition spec_end (bd bh : Z) : Z * Z := if bh + 1 <? 24 then (bd, bh + 1) else (next_yyjjj bd, 0).
